@@ -287,7 +287,7 @@ def pattern_case(draw):
     cells = draw(st.lists(cell if dense else sparse_cell, min_size=tracks * lines, max_size=tracks * lines))
     # what happened to the Pattern object before the image arrives: nothing, its data was looked at, it
     # was bulk-edited, one of its cells was replaced by another Note object, another image was loaded
-    prior = draw(st.sampled_from([None, None, "read", "set_via_fn", "set_via_gen", "replace_cell", "other_image", "resized_wider", "resized_narrower", "resized_lines"]))
+    prior = draw(st.sampled_from([None, None, "read", "set_via_fn", "set_via_gen", "replace_cell", "other_image", "resized_wider", "resized_narrower", "resized_lines", "cells_moved"]))
     return {"tracks": tracks, "lines": lines, "cells": cells, "via": draw(st.sampled_from(["raw_data", "notes"])), "prior": prior}
 
 
@@ -319,6 +319,23 @@ def check_pattern(case):
         from rv.api import Note
 
         p.set_via_gen(lambda pat, new: iter([(lines - 1, tracks - 1, Note(ctl=0x0102, val=0x0304)), (0, 0, Note(module=7))]))
+    elif prior == "cells_moved":
+        # a bulk edit that moves the pattern's existing Note objects (insert an empty line at the top /
+        # rotate the tracks), after which every cell must still be a cell of its own
+        from rv.api import Note
+
+        def shift_down(pat, new):
+            for ln in range(lines - 1):
+                for tr in range(tracks):
+                    yield ln + 1, tr, pat.data[ln][tr]
+            for tr in range(tracks):
+                yield 0, tr, Note()
+
+        p.set_via_gen(shift_down)
+        p.set_via_fn(lambda pat, ln, tr: pat.data[ln][(tr + 1) % tracks])
+        # ... and one that repeats existing notes in further cells without touching where they came from
+        # (every existing note goes to exactly one further cell: the line below, or the next track on the last line)
+        p.set_via_gen(lambda pat, new: iter([(ln + 1, tr, pat.data[ln][tr]) for ln in range(lines - 1) for tr in range(tracks)] + [(lines - 1, tr + 1, pat.data[lines - 1][tr]) for tr in range(0, tracks - 1, 2)] if lines == 1 else [(ln + 1, tr, pat.data[ln][tr]) for ln in range(lines - 1) for tr in range(tracks)]))
     elif prior == "replace_cell":
         from rv.api import Note
 
